@@ -183,13 +183,17 @@ func (con *Connection) Read(b []byte) (int, error) {
 func (con *Connection) Close() error {
 	log.Debug.Println("Close connection and remove session")
 
+	// Close the connection first: a write which is on its way to this connection
+	// (an event) and finds no session any more would go out in plain text.
+	err := con.connection.Close()
+
 	// Remove the session of this connection from the context. A newer connection
 	// from the same address may have taken over the entry: that one stays.
 	if s := con.context.GetSessionForConnection(con.connection); s != nil && s.Connection() == net.Conn(con) {
 		con.context.DeleteSessionForConnection(con.connection)
 	}
 
-	return con.connection.Close()
+	return err
 }
 
 // LocalAddr calls LocalAddr() of the underlying connection
